@@ -9,16 +9,23 @@ open List
 
 /-! ## top-level signals -/
 
-theorem loadTop_map {t T : Tbl} (hr : TRel t T) (refs : List (Id × Nat)) (hn : (refs.map (·.1)).Nodup)
+theorem loadTop_map {t T : Tbl} (hr : TRel t T) (own : Id → Option Owner) (o : Owner)
+    (refs : List (Id × Nat)) (hn : (refs.map (·.1)).Nodup)
     (l : List (Sig × Nat))
-    (hl : ∀ p ∈ l, sigWf t p.1 = true ∧ sigInRange p.1 = true ∧ (p.1.id, p.2) ∈ refs) :
-    loadTop T refs (l.map fun p => saveSig t p.1) = .ok (l.map fun p => (normSig t p.1, p.2)) := by
+    (hl : ∀ p ∈ l, sigWf t p.1 = true ∧ sigInRange p.1 = true ∧ (p.1.id, p.2) ∈ refs ∧
+      ∀ q ∈ sigOwners o p.1, own q.1 = some q.2) :
+    ∀ sn, Agrees sn own →
+      ∃ sn', loadTop T refs o sn (l.map fun p => saveSig t p.1) = .ok (l.map fun p => (normSig t p.1, p.2), sn') ∧
+        Agrees sn' own := by
   induction l with
-  | nil => simp [loadTop]
+  | nil => intro sn ha; exact ⟨sn, by simp [loadTop], ha⟩
   | cons x xs ih =>
-    obtain ⟨h1, h2, h3⟩ := hl x (by simp)
-    simp only [List.map_cons, loadTop, loadSig_saveSig hr x.1 h1 h2, saveSig_id,
-      lookupLast_of_mem hn h3, ih (fun p hp => hl p (by simp [hp]))]
+    intro sn ha
+    obtain ⟨h1, h2, h3, h4⟩ := hl x (by simp)
+    obtain ⟨sn1, e1, ha1⟩ := loadSig_saveSig hr own x.1 o h1 h2 h4 sn ha
+    obtain ⟨sn2, e2, ha2⟩ := ih (fun p hp => hl p (by simp [hp])) sn1 ha1
+    refine ⟨sn2, ?_, ha2⟩
+    simp only [List.map_cons, loadTop, e1, saveSig_id, lookupLast_of_mem hn h3, e2]
 
 /-! ## receivers -/
 
@@ -82,31 +89,41 @@ theorem msgInRange_iff (m : Msg) (h : msgInRange m = true) :
   simpa [hv] using h2
 
 /-- the message ids a state mentions -/
-def St.Fresh (st : St) (id : Id) : Prop := (∀ x ∈ st.sent, x.2 ≠ id) ∧ (∀ x ∈ st.received, x.2 ≠ id)
+def St.Fresh (st : St) (id : Id) : Prop :=
+  (∀ x ∈ st.sent, x.2 ≠ id) ∧ (∀ x ∈ st.received, x.2 ≠ id) ∧ id ∉ st.msgs
 
-theorem loadMsg_saveMsg {t T : Tbl} (hr : TRel t T) (st : St) (m : Msg)
-    (hw : msgWf t m = true) (hi : msgInRange m = true) (hf : st.Fresh m.e.id) :
-    loadMsg T st (saveMsg t m) =
+theorem loadMsg_saveMsg {t T : Tbl} (hr : TRel t T) (own : Id → Option Owner) (st : St) (m : Msg)
+    (hw : msgWf t m = true) (hi : msgInRange m = true) (hf : st.Fresh m.e.id)
+    (ho : ∀ q ∈ msgOwners m, own q.1 = some q.2) (hs : Agrees st.sigs own) :
+    ∃ sn, loadMsg T st (saveMsg t m) =
       .ok (normMsg t m,
-        { st with received := ((sortBy (recvLe t) m.recvs).map fun r => ((r.node, r.num), m.e.id)).reverse ++ st.received }) := by
+        { st with received := ((sortBy (recvLe t) m.recvs).map fun r => ((r.node, r.num), m.e.id)).reverse ++ st.received
+                  msgs := m.e.id :: st.msgs, sigs := sn }) ∧ Agrees sn own := by
   obtain ⟨w1, w2, w3, w4, w5, w6⟩ := msgWf_iff t m hw
   obtain ⟨i1, i2, i3, i4⟩ := msgInRange_iff m hi
-  have htop : loadTop T ((sortBy topLe m.sigs).map fun p => (p.1.id, u32 p.2))
-      ((sortBy topLe m.sigs).map fun p => saveSig t p.1) =
-      .ok ((sortBy topLe m.sigs).map fun p => (normSig t p.1, p.2)) := by
-    apply loadTop_map hr
-    · simp only [List.map_map, Function.comp_def]
-      exact nodup_map_sortBy _ _ w4
-    · intro p hp
-      have hp' := mem_sortBy.mp hp
-      refine ⟨w3 p hp', (i3 p hp').1, ?_⟩
-      exact List.mem_map.mpr ⟨p, hp, by rw [u32_of_fits (i3 p hp').2]⟩
-  have hrec := loadRecvs_map hr m.e.id st [] (sortBy (recvLe t) m.recvs)
+  obtain ⟨sn, htop, hsn⟩ := loadTop_map hr own (.msg m.e.id) ((sortBy topLe m.sigs).map fun p => (p.1.id, u32 p.2))
+      (by
+        simp only [List.map_map, Function.comp_def]
+        exact nodup_map_sortBy _ _ w4)
+      (sortBy topLe m.sigs)
+      (by
+        intro p hp
+        have hp' := mem_sortBy.mp hp
+        refine ⟨w3 p hp', (i3 p hp').1, ?_, ?_⟩
+        · exact List.mem_map.mpr ⟨p, hp, by rw [u32_of_fits (i3 p hp').2]⟩
+        · intro q hq
+          exact ho q (List.mem_flatMap.mpr ⟨p, hp', hq⟩))
+      st.sigs hs
+  refine ⟨sn, ?_, hsn⟩
+  have hrec := loadRecvs_map hr m.e.id { st with msgs := m.e.id :: st.msgs, sigs := sn } []
+    (sortBy (recvLe t) m.recvs)
     (by simpa using nodup_map_sortBy _ _ w6)
     (fun r hr' => ⟨w5 r (mem_sortBy.mp hr'), i4 r (mem_sortBy.mp hr'),
       fun hc => hf.1 _ hc rfl⟩)
   simp only [List.nil_append] at hrec
-  simp only [loadMsg, saveMsg, htop, hrec, loadAsgs_saveAsgs hr.attr m.e.id m.asg w1]
+  have hnew : (st.msgs.contains m.e.id) = false := by simpa using hf.2.2
+  simp only [loadMsg, saveMsg, hnew, Bool.false_eq_true, if_false, htop, hrec,
+    loadAsgs_saveAsgs hr.attr m.e.id m.asg w1]
   congr 2
   obtain ⟨e, asg, mid, static, sigs, recvs⟩ := m
   simp only [normMsg, Msg.mk.injEq, true_and, and_true]
@@ -120,19 +137,25 @@ theorem loadMsg_saveMsg {t T : Tbl} (hr : TRel t T) (st : St) (m : Msg)
 
 /-! ## the state while a network is loaded -/
 
-/-- the state mentions interfaces among `A` and message ids among `M` only -/
-structure StOK (st : St) (A : List (Id × Nat)) (M : List Id) : Prop where
+/-- the state mentions interfaces among `A` and message ids among `M` only, and the signal ids it
+    has seen are owned as `own` says -/
+structure StOK (own : Id → Option Owner) (st : St) (A : List (Id × Nat)) (M : List Id) : Prop where
   att : ∀ k ∈ st.attached, k ∈ A
   sent : ∀ x ∈ st.sent, x.2 ∈ M
   recv : ∀ x ∈ st.received, x.2 ∈ M
+  msgs : ∀ x ∈ st.msgs, x ∈ M
+  sigs : Agrees st.sigs own
 
-theorem StOK.fresh {st : St} {A : List (Id × Nat)} {M : List Id} (h : StOK st A M) {id : Id}
-    (hid : id ∉ M) : st.Fresh id :=
-  ⟨fun x hx he => hid (he ▸ h.sent x hx), fun x hx he => hid (he ▸ h.recv x hx)⟩
+theorem StOK.fresh {own : Id → Option Owner} {st : St} {A : List (Id × Nat)} {M : List Id}
+    (h : StOK own st A M) {id : Id} (hid : id ∉ M) : st.Fresh id :=
+  ⟨fun x hx he => hid (he ▸ h.sent x hx), fun x hx he => hid (he ▸ h.recv x hx),
+   fun hc => hid (h.msgs id hc)⟩
 
-theorem StOK.mono {st : St} {A A' : List (Id × Nat)} {M M' : List Id} (h : StOK st A M)
-    (hA : ∀ k ∈ A, k ∈ A') (hM : ∀ k ∈ M, k ∈ M') : StOK st A' M' :=
-  ⟨fun k hk => hA k (h.att k hk), fun x hx => hM _ (h.sent x hx), fun x hx => hM _ (h.recv x hx)⟩
+theorem StOK.mono {own : Id → Option Owner} {st : St} {A A' : List (Id × Nat)} {M M' : List Id}
+    (h : StOK own st A M)
+    (hA : ∀ k ∈ A, k ∈ A') (hM : ∀ k ∈ M, k ∈ M') : StOK own st A' M' :=
+  ⟨fun k hk => hA k (h.att k hk), fun x hx => hM _ (h.sent x hx), fun x hx => hM _ (h.recv x hx),
+   fun x hx => hM _ (h.msgs x hx), h.sigs⟩
 
 theorem loadMsgs_cons_ok {T : Tbl} {key : Id × Nat} {st st1 st2 : St} {p : PMsg} {r : List PMsg}
     {m : Msg} {ms : List Msg} (h1 : loadMsg T st p = .ok (m, st1))
@@ -142,25 +165,29 @@ theorem loadMsgs_cons_ok {T : Tbl} {key : Id × Nat} {st st1 st2 : St} {p : PMsg
   simp only [loadMsgs, h1]
   rw [if_neg (by simpa using h2), if_neg (by simpa using h3), h4]
 
-theorem loadMsgs_map {t T : Tbl} (hr : TRel t T) (key : Id × Nat) (A : List (Id × Nat)) (M : List Id)
-    (st : St) (l : List Msg) (hst : StOK st A M)
-    (hw : ∀ m ∈ l, msgWf t m = true ∧ msgInRange m = true ∧ ⟨key.1, key.2⟩ ∉ m.recvs)
+theorem loadMsgs_map {t T : Tbl} (hr : TRel t T) (own : Id → Option Owner) (key : Id × Nat)
+    (A : List (Id × Nat)) (M : List Id)
+    (st : St) (l : List Msg) (hst : StOK own st A M)
+    (hw : ∀ m ∈ l, msgWf t m = true ∧ msgInRange m = true ∧ ⟨key.1, key.2⟩ ∉ m.recvs ∧
+      ∀ q ∈ msgOwners m, own q.1 = some q.2)
     (hn : (l.map (·.e.id)).Nodup) (hd : ∀ m ∈ l, m.e.id ∉ M) :
     ∃ st', loadMsgs T key st (l.map (saveMsg t)) = .ok (l.map (normMsg t), st') ∧
-      StOK st' A (l.map (·.e.id) ++ M) := by
+      StOK own st' A (l.map (·.e.id) ++ M) := by
   induction l generalizing st M with
   | nil => exact ⟨st, by simp [loadMsgs], by simpa using hst⟩
   | cons m ms ih =>
-    obtain ⟨h1, h2, h3⟩ := hw m (by simp)
+    obtain ⟨h1, h2, h3, h4⟩ := hw m (by simp)
     simp only [List.map_cons, List.nodup_cons] at hn
     have hfresh := hst.fresh (hd m (by simp))
     have hnorm : (normMsg t m).e.id = m.e.id := rfl
+    obtain ⟨sn, hload, hsn⟩ := loadMsg_saveMsg hr own st m h1 h2 hfresh h4 hst.sigs
     -- the state after the message and its registration as sent
     let st1 : St := { st with received :=
-      ((sortBy (recvLe t) m.recvs).map fun r => ((r.node, r.num), m.e.id)).reverse ++ st.received }
+      ((sortBy (recvLe t) m.recvs).map fun r => ((r.node, r.num), m.e.id)).reverse ++ st.received
+                              msgs := m.e.id :: st.msgs, sigs := sn }
     let st2 : St := { st1 with sent := (key, m.e.id) :: st1.sent }
-    have hst2 : StOK st2 A (m.e.id :: M) := by
-      refine ⟨hst.att, ?_, ?_⟩
+    have hst2 : StOK own st2 A (m.e.id :: M) := by
+      refine ⟨hst.att, ?_, ?_, ?_, hsn⟩
       · intro x hx
         rcases List.mem_cons.mp hx with rfl | hx
         · simp
@@ -171,6 +198,10 @@ theorem loadMsgs_map {t T : Tbl} (hr : TRel t T) (key : Id × Nat) (A : List (Id
           obtain ⟨r, _, rfl⟩ := hx
           simp
         · exact List.mem_cons_of_mem _ (hst.recv x hx)
+      · intro x hx
+        rcases List.mem_cons.mp hx with rfl | hx
+        · simp
+        · exact List.mem_cons_of_mem _ (hst.msgs x hx)
     obtain ⟨st', hl, hst'⟩ := ih (m.e.id :: M) st2 hst2 (fun m' hm' => hw m' (by simp [hm'])) hn.2
       (by
         intro m' hm' hc
@@ -184,11 +215,11 @@ theorem loadMsgs_map {t T : Tbl} (hr : TRel t T) (key : Id × Nat) (A : List (Id
       · exact Or.inl (Or.inr h)
       · exact Or.inl (Or.inl h)
       · exact Or.inr h)⟩
-    refine loadMsgs_cons_ok (loadMsg_saveMsg hr st m h1 h2 hfresh) ?_ ?_ hl
+    refine loadMsgs_cons_ok hload ?_ ?_ hl
     · exact fun hc => hfresh.1 _ hc rfl
     · -- the interface does not receive the message
       simp only [List.mem_append, List.mem_reverse, List.mem_map, not_or]
-      refine ⟨?_, fun hc => hfresh.2 _ hc rfl⟩
+      refine ⟨?_, fun hc => hfresh.2.1 _ hc rfl⟩
       rintro ⟨r, hr', he⟩
       apply h3
       have := mem_sortBy.mp hr'
@@ -201,6 +232,7 @@ theorem loadMsgs_map {t T : Tbl} (hr : TRel t T) (key : Id × Nat) (A : List (Id
 
 def Iface.key (i : Iface) : Id × Nat := (i.node, i.num)
 def Iface.mids (i : Iface) : List Id := i.msgs.map (·.e.id)
+def Iface.owners (i : Iface) : List (Id × Owner) := i.msgs.flatMap msgOwners
 
 theorem ifaceWf_iff (t : Tbl) (i : Iface) (h : ifaceWf t i = true) :
     recvWf t ⟨i.node, i.num⟩ = true ∧
@@ -209,12 +241,14 @@ theorem ifaceWf_iff (t : Tbl) (i : Iface) (h : ifaceWf t i = true) :
     decide_eq_false_iff_not] at h
   exact h
 
-theorem loadIface_saveIface {t T : Tbl} (hr : TRel t T) (A : List (Id × Nat)) (M : List Id) (st : St)
-    (i : Iface) (hst : StOK st A M) (hw : ifaceWf t i = true)
+theorem loadIface_saveIface {t T : Tbl} (hr : TRel t T) (own : Id → Option Owner)
+    (A : List (Id × Nat)) (M : List Id) (st : St)
+    (i : Iface) (hst : StOK own st A M) (hw : ifaceWf t i = true)
     (hi : fits31 i.num = true ∧ ∀ m ∈ i.msgs, msgInRange m = true)
+    (ho : ∀ q ∈ i.owners, own q.1 = some q.2)
     (hk : i.key ∉ A) (hn : i.mids.Nodup) (hd : ∀ id ∈ i.mids, id ∉ M) :
     ∃ st', loadIface T st (saveIface t i) = .ok (normIface t i, st') ∧
-      StOK st' (i.key :: A) (i.mids ++ M) := by
+      StOK own st' (i.key :: A) (i.mids ++ M) := by
   obtain ⟨w1, w2⟩ := ifaceWf_iff t i hw
   simp only [recvWf] at w1
   cases hx : t.node i.node with
@@ -222,8 +256,9 @@ theorem loadIface_saveIface {t T : Tbl} (hr : TRel t T) (A : List (Id × Nat)) (
   | some x =>
     simp only [hx, decide_eq_true_eq] at w1
     obtain ⟨y, hy, hifc⟩ := hr.node _ _ hx
-    obtain ⟨st1, hl, hst1⟩ := loadMsgs_map hr (i.node, i.num) A M st (sortBy msgLe i.msgs) hst
-      (fun m hm => ⟨(w2 m (mem_sortBy.mp hm)).1, hi.2 m (mem_sortBy.mp hm), (w2 m (mem_sortBy.mp hm)).2⟩)
+    obtain ⟨st1, hl, hst1⟩ := loadMsgs_map hr own (i.node, i.num) A M st (sortBy msgLe i.msgs) hst
+      (fun m hm => ⟨(w2 m (mem_sortBy.mp hm)).1, hi.2 m (mem_sortBy.mp hm), (w2 m (mem_sortBy.mp hm)).2,
+        fun q hq => ho q (List.mem_flatMap.mpr ⟨m, mem_sortBy.mp hm, hq⟩)⟩)
       (nodup_map_sortBy _ _ hn)
       (fun m hm => hd _ (List.mem_map.mpr ⟨m, mem_sortBy.mp hm, rfl⟩))
     refine ⟨{ st1 with attached := (i.node, i.num) :: st1.attached }, ?_, ?_⟩
@@ -232,7 +267,7 @@ theorem loadIface_saveIface {t T : Tbl} (hr : TRel t T) (A : List (Id × Nat)) (
       · simp only [hl, normIface]
       · have : (i.node, i.num) ∉ st.attached := fun hc => hk (hst.att _ hc)
         simpa using this
-    · refine ⟨?_, ?_, ?_⟩
+    · refine ⟨?_, ?_, ?_, ?_, hst1.sigs⟩
       · intro k hk'
         rcases List.mem_cons.mp hk' with rfl | hk'
         · simp [Iface.key]
@@ -249,21 +284,29 @@ theorem loadIface_saveIface {t T : Tbl} (hr : TRel t T) (A : List (Id × Nat)) (
         rcases this with ⟨m, hm, he⟩ | h
         · exact Or.inl ⟨m, mem_sortBy.mp hm, he⟩
         · exact Or.inr h
+      · intro x hx'
+        have := hst1.msgs x hx'
+        simp only [Iface.mids, List.mem_append, List.mem_map] at this ⊢
+        rcases this with ⟨m, hm, he⟩ | h
+        · exact Or.inl ⟨m, mem_sortBy.mp hm, he⟩
+        · exact Or.inr h
 
-theorem loadIfaces_map {t T : Tbl} (hr : TRel t T) (A : List (Id × Nat)) (M : List Id) (st : St)
-    (l : List Iface) (hst : StOK st A M)
-    (hw : ∀ i ∈ l, ifaceWf t i = true ∧ fits31 i.num = true ∧ ∀ m ∈ i.msgs, msgInRange m = true)
+theorem loadIfaces_map {t T : Tbl} (hr : TRel t T) (own : Id → Option Owner)
+    (A : List (Id × Nat)) (M : List Id) (st : St)
+    (l : List Iface) (hst : StOK own st A M)
+    (hw : ∀ i ∈ l, ifaceWf t i = true ∧ (fits31 i.num = true ∧ ∀ m ∈ i.msgs, msgInRange m = true) ∧
+      ∀ q ∈ i.owners, own q.1 = some q.2)
     (hk : (l.map Iface.key).Nodup) (hkd : ∀ i ∈ l, i.key ∉ A)
     (hn : (l.flatMap Iface.mids).Nodup) (hd : ∀ id ∈ l.flatMap Iface.mids, id ∉ M) :
     ∃ st', loadIfaces T st (l.map (saveIface t)) = .ok (l.map (normIface t), st') ∧
-      StOK st' (l.map Iface.key ++ A) (l.flatMap Iface.mids ++ M) := by
+      StOK own st' (l.map Iface.key ++ A) (l.flatMap Iface.mids ++ M) := by
   induction l generalizing st A M with
   | nil => exact ⟨st, by simp [loadIfaces], by simpa using hst⟩
   | cons i is ih =>
     obtain ⟨h1, h2, h3⟩ := hw i (by simp)
     simp only [List.map_cons, List.nodup_cons] at hk
     simp only [List.flatMap_cons, List.nodup_append] at hn
-    obtain ⟨st1, hl1, hst1⟩ := loadIface_saveIface hr A M st i hst h1 ⟨h2, h3⟩ (hkd i (by simp)) hn.1
+    obtain ⟨st1, hl1, hst1⟩ := loadIface_saveIface hr own A M st i hst h1 h2 h3 (hkd i (by simp)) hn.1
       (fun id hid => hd id (by simp [hid]))
     obtain ⟨st2, hl2, hst2⟩ := ih (i.key :: A) (i.mids ++ M) st1 hst1 (fun j hj => hw j (by simp [hj])) hk.2
       (by
@@ -296,6 +339,7 @@ theorem loadIfaces_map {t T : Tbl} (hr : TRel t T) (A : List (Id × Nat)) (M : L
 
 def Bus.keys (b : Bus) : List (Id × Nat) := b.ifaces.map Iface.key
 def Bus.mids (b : Bus) : List Id := b.ifaces.flatMap Iface.mids
+def Bus.owners (b : Bus) : List (Id × Owner) := b.ifaces.flatMap Iface.owners
 
 theorem busWf_iff (t : Tbl) (b : Bus) (h : busWf t b = true) :
     asgsWf t b.asg = true ∧
@@ -313,16 +357,19 @@ theorem busInRange_iff (b : Bus) (h : busInRange b = true) :
     ∀ i ∈ b.ifaces, fits31 i.num = true ∧ ∀ m ∈ i.msgs, msgInRange m = true := by
   simpa [busInRange] using h
 
-theorem loadBus_saveBus {t T : Tbl} (hr : TRel t T) (A : List (Id × Nat)) (M : List Id) (st : St)
-    (b : Bus) (hst : StOK st A M) (hw : busWf t b = true) (hi : busInRange b = true)
+theorem loadBus_saveBus {t T : Tbl} (hr : TRel t T) (own : Id → Option Owner)
+    (A : List (Id × Nat)) (M : List Id) (st : St)
+    (b : Bus) (hst : StOK own st A M) (hw : busWf t b = true) (hi : busInRange b = true)
+    (ho : ∀ q ∈ b.owners, own q.1 = some q.2)
     (hk : b.keys.Nodup) (hkd : ∀ k ∈ b.keys, k ∉ A)
     (hn : b.mids.Nodup) (hd : ∀ id ∈ b.mids, id ∉ M) :
-    ∃ st', loadBus T st (saveBus t b) = .ok (normBus t b, st') ∧ StOK st' (b.keys ++ A) (b.mids ++ M) := by
+    ∃ st', loadBus T st (saveBus t b) = .ok (normBus t b, st') ∧ StOK own st' (b.keys ++ A) (b.mids ++ M) := by
   obtain ⟨w1, w2, w3⟩ := busWf_iff t b hw
   have hir := busInRange_iff b hi
   have hperm := sortBy_perm (ifaceLe t) b.ifaces
-  obtain ⟨st1, hl, hst1⟩ := loadIfaces_map hr A M st (sortBy (ifaceLe t) b.ifaces) hst
-    (fun i hi' => ⟨w3 i (mem_sortBy.mp hi'), hir i (mem_sortBy.mp hi')⟩)
+  obtain ⟨st1, hl, hst1⟩ := loadIfaces_map hr own A M st (sortBy (ifaceLe t) b.ifaces) hst
+    (fun i hi' => ⟨w3 i (mem_sortBy.mp hi'), hir i (mem_sortBy.mp hi'),
+      fun q hq => ho q (List.mem_flatMap.mpr ⟨i, mem_sortBy.mp hi', hq⟩)⟩)
     ((hperm.map _).nodup_iff.mpr hk)
     (fun i hi' => hkd _ (List.mem_map.mpr ⟨i, mem_sortBy.mp hi', rfl⟩))
     ((hperm.flatMap_right _).nodup_iff.mpr hn)
@@ -357,9 +404,10 @@ theorem loadBus_saveBus {t T : Tbl} (hr : TRel t T) (A : List (Id × Nat)) (M : 
     · exact Or.inl ((hperm.flatMap_right _).mem_iff.mp hk')
     · exact Or.inr hk'
 
-theorem loadBuses_map {t T : Tbl} (hr : TRel t T) (A : List (Id × Nat)) (M : List Id) (st : St)
-    (seen : List Id) (l : List Bus) (hst : StOK st A M)
-    (hw : ∀ b ∈ l, busWf t b = true ∧ busInRange b = true)
+theorem loadBuses_map {t T : Tbl} (hr : TRel t T) (own : Id → Option Owner)
+    (A : List (Id × Nat)) (M : List Id) (st : St)
+    (seen : List Id) (l : List Bus) (hst : StOK own st A M)
+    (hw : ∀ b ∈ l, busWf t b = true ∧ busInRange b = true ∧ ∀ q ∈ b.owners, own q.1 = some q.2)
     (hid : (l.map (·.e.id)).Nodup) (hsd : ∀ b ∈ l, b.e.id ∉ seen)
     (hk : (l.flatMap Bus.keys).Nodup) (hkd : ∀ k ∈ l.flatMap Bus.keys, k ∉ A)
     (hn : (l.flatMap Bus.mids).Nodup) (hd : ∀ id ∈ l.flatMap Bus.mids, id ∉ M) :
@@ -367,10 +415,10 @@ theorem loadBuses_map {t T : Tbl} (hr : TRel t T) (A : List (Id × Nat)) (M : Li
   induction l generalizing st A M seen with
   | nil => simp [loadBuses]
   | cons b bs ih =>
-    obtain ⟨h1, h2⟩ := hw b (by simp)
+    obtain ⟨h1, h2, h3⟩ := hw b (by simp)
     simp only [List.map_cons, List.nodup_cons] at hid
     simp only [List.flatMap_cons, List.nodup_append] at hk hn
-    obtain ⟨st1, hl1, hst1⟩ := loadBus_saveBus hr A M st b hst h1 h2 hk.1
+    obtain ⟨st1, hl1, hst1⟩ := loadBus_saveBus hr own A M st b hst h1 h2 h3 hk.1
       (fun k hk' => hkd k (by simp [hk'])) hn.1 (fun id hid' => hd id (by simp [hid']))
     have hnorm : (normBus t b).e.id = b.e.id := rfl
     simp only [List.map_cons, loadBuses, hl1, hnorm]
